@@ -1,1 +1,37 @@
-// ---- specification of unit cfg (C12)
+// ---- specification of unit `cfg` (C12): the graph-shape invariant of the block vector under construction
+pub closed spec fn bb_index(b: BasicBlock) -> usize { b.index }
+pub closed spec fn bb_depth(b: BasicBlock) -> usize { b.loop_depth }
+pub closed spec fn bb_preds(b: BasicBlock) -> Set<usize> { b.predecessors@ }
+pub closed spec fn bb_succs(b: BasicBlock) -> Set<usize> { b.successors@ }
+pub closed spec fn bb_stmts(b: BasicBlock) -> Seq<Statement> { b.stmts@ }
+
+pub open spec fn is_branch(s: Statement) -> bool { s is IfThenElse }
+pub open spec fn ends_in_branch(b: BasicBlock) -> bool { bb_stmts(b).len() > 0 && is_branch(bb_stmts(b).last()) }
+pub open spec fn true_target(b: BasicBlock) -> usize { bb_stmts(b).last()->IfThenElse_true_index }
+pub open spec fn false_target(b: BasicBlock) -> Option<usize> { bb_stmts(b).last()->IfThenElse_false_index }
+pub open spec fn succ_limit(b: BasicBlock) -> int { if ends_in_branch(b) { 2 } else { 1 } }
+
+// the invariant (DESIGN.md §5 C12). `n` = number of blocks built so far; a branch whose true target is `n` is
+// pending: its target is the block that the very next complete_basic_block creates.
+pub open spec fn wf_block(v: Seq<BasicBlock>, k: int) -> bool {
+    let b = v[k];
+    &&& bb_index(b) == k                                                                               // I1
+    &&& (forall|q: usize| #[trigger] bb_preds(b).contains(q) ==> q < v.len() && bb_succs(v[q as int]).contains(k as usize))   // I2
+    &&& (forall|s: usize| #[trigger] bb_succs(b).contains(s) ==> s < v.len() && bb_preds(v[s as int]).contains(k as usize))   // I2
+    &&& (k == 0 ==> bb_preds(b) =~= Set::<usize>::empty())                                          // I3
+    &&& (k > 0 ==> exists|q: usize| #[trigger] bb_preds(b).contains(q) && q < k)                        // I4
+    &&& (forall|i: int| 0 <= i < bb_stmts(b).len() - 1 ==> !is_branch(#[trigger] bb_stmts(b)[i]))       // I5
+    &&& (ends_in_branch(b) ==> (bb_succs(b).contains(true_target(b)) || true_target(b) == v.len()))     // I6 (true target)
+    &&& (ends_in_branch(b) && false_target(b) is Some ==> bb_succs(b).contains(false_target(b).unwrap()) && false_target(b).unwrap() != true_target(b))  // I6
+    &&& bb_succs(b).finite() && bb_succs(b).len() <= succ_limit(b)                                      // I7
+}
+pub open spec fn wf_blocks(v: Seq<BasicBlock>) -> bool {
+    v.len() >= 1 && forall|k: int| 0 <= k < v.len() ==> #[trigger] wf_block(v, k)
+}
+// block i can take the new block j = v.len() as one more successor
+pub open spec fn has_room(v: Seq<BasicBlock>, i: usize) -> bool {
+    let b = v[i as int];
+    i < v.len()
+    && bb_succs(b).len() < succ_limit(b)
+    && (ends_in_branch(b) && false_target(b) is Some ==> true_target(b) == v.len())
+}
